@@ -426,8 +426,12 @@ func (a *Activation) modCall(cc *ssa.CallCommon, cm map[cellKey]bool, hm map[str
 	if cc.IsInvoke() {
 		key := ifaceMethodKey(cc)
 		if sp := g.eng.specs.funcs[key]; sp != nil && sp.HasMod && !sp.ModAll && len(sp.Modifies) == 0 {
-			if len(sp.Ghost) > 0 {
-				*all = true
+			if gk, explicit := g.eng.specs.ghostFrame(sp); explicit {
+				for k := range gk {
+					hm["$ghost:"+k] = true
+				}
+			} else {
+				hm["$ghosts"] = true
 			}
 			return
 		}
@@ -863,7 +867,7 @@ func (a *Activation) applyContract(st, pre *State, spec *FuncSpec, pkg *packages
 		for k, v := range st.ghosts {
 			savedGhosts[k] = v
 		}
-		g.havocAllHeaps(st)
+		g.havocAllHeapsAtCall(st)
 		if _, explicit := g.eng.specs.ghostFrame(spec); explicit {
 			// the ghost effect of this callee is stated explicitly (below)
 			for k, v := range savedGhosts {
@@ -878,7 +882,7 @@ func (a *Activation) applyContract(st, pre *State, spec *FuncSpec, pkg *packages
 		locs, tys, ranges, err := evalModifies(c, spec)
 		if err != nil {
 			g.unbound = append(g.unbound, err.Error())
-			g.havocAllHeaps(st)
+			g.havocAllHeapsAtCall(st)
 		} else {
 			for i, l := range locs {
 				a.frameObligation(st, l, pos)
